@@ -1,4 +1,4 @@
-SPECIFICATION GSpec
+SPECIFICATION FGSpec
 CONSTANTS
   Members = {"p", "q"}
   Vals = {1, 2, 3, 4}
@@ -18,6 +18,6 @@ CONSTANTS
   SWV = {2}
   SAV = {1}
   RS = TRUE
-CONSTRAINT Bound
-INVARIANT Emit1
+CONSTRAINT FBound
+INVARIANT FEmit
 CHECK_DEADLOCK FALSE
